@@ -26,11 +26,12 @@
     the feature ordering is a strict weak order
   Carried by the exhaustive small-scope correspondence + executable set-of-bases spec only
   (see DESIGN.md): the error paths of connect (inputs that bridge the origin but cannot be split);
-  extension of multi-exon and of reverse-strand origin-spanning locations; offset of multi-exon gene locations.
+  extension of multi-exon locations (the reverse-strand origin-spanning span is proved: `extend_ring_area_rev_exact`); offset of multi-exon gene locations.
 -/
 import ASV.Proofs.LocOrder
 import ASV.Proofs.LocString
 import ASV.Proofs.LocMergeAdjacent
+import ASV.Proofs.LocExtendAreaRev
 import ASV.Proofs.LocExtend
 import ASV.Proofs.LocConnectRing
 import ASV.Proofs.LocOffsetArea
@@ -333,6 +334,22 @@ theorem extend_ring_area_exact (x y d L : Int) (hL : 0 < L) (hy0 : 0 < y) (hyx :
       areaWF L L r = true :=
   ⟨_, extend_area_ring_eq x y d L hL hy0 hyx hxL hd, extAreaRing_mem x y d L hL hy0 hyx hxL hd,
     extAreaRing_wf x y d L hL hy0 hyx hxL hd⟩
+
+/-- the same for the reverse-strand origin-spanning span `[0, y)(−), [x, L)(−)` (Biopython's part order
+    for a reverse-strand feature over the origin): exactly the bases within the distance, as the whole
+    record or as two disjoint parts in the same (reverse-strand) order -/
+theorem extend_ring_area_rev_exact (x y d L : Int) (hL : 0 < L) (hy0 : 0 < y) (hyx : y ≤ x) (hxL : x < L) (hd : 0 ≤ d) :
+    ∃ r, extendLocation (areaTwoRev x y L) d L true = .ok r ∧
+      (∀ i, r.mem i = true ↔ (0 ≤ i ∧ i < L ∧ ∃ j, (areaTwoRev x y L).mem j = true ∧ ringAbs L i j ≤ d)) ∧
+      (r = .simple ⟨0, L, .rev⟩ ∨ (r = .compound [⟨0, y + d, .rev⟩, ⟨x - d, L, .rev⟩] ∧ y + d ≤ x - d)) := by
+  refine ⟨_, extend_area_ring_rev_eq x y d L hL hy0 hyx hxL hd, extAreaRingRev_mem x y d L hL hy0 hyx hxL hd, ?_⟩
+  unfold extAreaRingRev
+  by_cases hG : x - y < 2 * d
+  · rw [if_pos hG]; exact Or.inl rfl
+  · rw [if_neg hG]; exact Or.inr ⟨rfl, by omega⟩
+
+example : extendLocation (areaTwoRev 90 10 100) 5 100 true = .ok (.compound [⟨0, 15, .rev⟩, ⟨85, 100, .rev⟩]) ∧
+    extendLocation (areaTwoRev 90 10 100) 45 100 true = .ok (.simple ⟨0, 100, .rev⟩) := ⟨by rfl, by rfl⟩
 
 /-- the two layouts on which the code returned three overlapping parts before D59
     (`[90:100], [0:100], [0:25]` and `[60:100], [0:100], [0:10]`): now the whole record -/
